@@ -99,6 +99,7 @@ func loadProgram(repo string, patterns []string, extDir string) (*Program, error
 		return nil, err
 	}
 	P.Contracts = cs
+	P.liftContracts()
 	return P, nil
 }
 
@@ -215,4 +216,90 @@ func (P *Program) implementers(iface *types.Interface, repoPrefix string) []type
 		}
 	}
 	return out
+}
+
+// substResult replaces the identifier `result` in a spec expression.
+func substResult(e Expr, repl Expr) Expr {
+	switch x := e.(type) {
+	case *EIdent:
+		if x.Name == "result" || x.Name == "result0" {
+			return repl
+		}
+		if strings.HasSuffix(x.Name, "@0") {
+			return &EIdent{strings.TrimSuffix(x.Name, "@0")}
+		}
+		return x
+	case *EUnary:
+		return &EUnary{x.Op, substResult(x.X, repl)}
+	case *EBinary:
+		return &EBinary{x.Op, substResult(x.X, repl), substResult(x.Y, repl)}
+	case *ECond:
+		return &ECond{substResult(x.C, repl), substResult(x.A, repl), substResult(x.B, repl)}
+	case *EField:
+		return &EField{substResult(x.X, repl), x.Name}
+	case *EIndex:
+		return &EIndex{substResult(x.X, repl), substResult(x.I, repl)}
+	case *ECall:
+		var as []Expr
+		for _, a := range x.Args {
+			as = append(as, substResult(a, repl))
+		}
+		return &ECall{x.Fun, as}
+	case *EQuant:
+		return &EQuant{x.Forall, x.Vars, substResult(x.Body, repl), x.Pats}
+	case *ELet:
+		return &ELet{x.Name, substResult(x.V, repl), substResult(x.B, repl)}
+	case *ETypeAssert:
+		return &ETypeAssert{substResult(x.X, repl), x.T}
+	}
+	return e
+}
+
+func typeToExpr(t types.Type, pkg *types.Package) *TypeExpr {
+	switch tt := t.(type) {
+	case *types.Named:
+		if tt.Obj().Pkg() == nil || tt.Obj().Pkg() == pkg {
+			return &TypeExpr{Kind: "name", Name: tt.Obj().Name()}
+		}
+		return &TypeExpr{Kind: "name", Pkg: tt.Obj().Pkg().Name(), Name: tt.Obj().Name()}
+	case *types.Basic:
+		return &TypeExpr{Kind: "name", Name: tt.Name()}
+	case *types.Pointer:
+		return &TypeExpr{Kind: "ptr", Elem: typeToExpr(tt.Elem(), pkg)}
+	case *types.Slice:
+		return &TypeExpr{Kind: "slice", Elem: typeToExpr(tt.Elem(), pkg)}
+	}
+	return &TypeExpr{Kind: "name", Name: "int"}
+}
+
+// liftContracts turns `lift NAME` on a pure, deterministic function with a
+// `defines result == f(params)` clause into the lemma
+//     forall params :: requires ==> ensures[result := f(params)]
+// It is listed as an axiom whose justification is the function's own proved
+// contract (every ensures clause holds for all arguments) plus determinism.
+func (P *Program) liftContracts() {
+	for _, fc := range P.Contracts.Funcs {
+		name := fc.Opts["lift"]
+		if name == "" || len(fc.Defines) != 1 {
+			continue
+		}
+		fn := P.lookupFunc(fc.Pkg, fc.Key)
+		if fn == nil {
+			continue
+		}
+		def, ok := fc.Defines[0].Expr.(*EBinary)
+		if !ok || def.Op != "==" {
+			continue
+		}
+		lm := &Lemma{Pkg: fc.Pkg, Name: name, Axiom: true, Mode: fc.Mode, Props: fc.Props,
+			Reason: "lifted from the proved contract of " + fc.Key + " (holds for all arguments; the function is deterministic)"}
+		for _, p := range fn.Params {
+			lm.Params = append(lm.Params, Param{p.Name(), typeToExpr(p.Type(), fn.Pkg.Pkg)})
+		}
+		lm.Requires = fc.Requires
+		for _, e := range fc.Ensures {
+			lm.Ensures = append(lm.Ensures, &Clause{Kind: "ensures", Label: e.Label, Text: e.Text, Expr: substResult(e.Expr, def.Y)})
+		}
+		P.Contracts.Lemmas[fc.Pkg+"::"+name] = lm
+	}
 }
